@@ -477,18 +477,9 @@ func ROwn(c *core.Ctx) {
 				case dec1, dec2:
 					c.Visit(name)
 					pooled = append(pooled, call)
-					gaveBack := false
-					for _, bb := range fn.Blocks {
-						for _, i2 := range bb.Instrs {
-							if d, ok := i2.(*ssa.Defer); ok {
-								if mc, ok := d.Call.Value.(*ssa.MakeClosure); ok {
-									if cl, ok := mc.Fn.(*ssa.Function); ok && poolPut != nil && callsFn(cl, poolPut) {
-										gaveBack = true
-									}
-								}
-							}
-						}
-					}
+					gaveBack := poolPut != nil && defersReach(fn, func(f *ssa.Function) bool {
+						return f == poolPut || (f.Origin() != nil && f.Origin() == poolPut.Origin())
+					})
 					c.Check(gaveBack, name+" / pooled rune buffer given back in a deferred call", call.Pos(), "decodeString* hands out a buffer from the global pool")
 					// ... and only there: a second, explicit put on some path hands the same buffer to two later borrowers
 					direct := token.NoPos
@@ -544,7 +535,7 @@ func ROwn(c *core.Ctx) {
 					case *ssa.Call:
 						// newStringMatchText(input, text): the text info refers to the buffer
 						for _, a := range x.Call.Args {
-							if der[a] && x.Call.StaticCallee() != nil && x.Call.StaticCallee().Name() == "newStringMatchText" {
+							if der[a] && x.Call.StaticCallee() != nil && core.BaseName(x.Call.StaticCallee()) == "newStringMatchText" {
 								der[v] = true
 								changed = true
 							}
@@ -575,7 +566,7 @@ func ROwn(c *core.Ctx) {
 					n++
 					q, isC := call.Call.Args[quickIdx].(*ssa.Const)
 					c.Check(isC && q.Value != nil && q.Value.String() == "true", fmt.Sprintf("%s / scan #%d over a pooled buffer is quick", name, n), call.Pos(), "a non-quick scan would hand out a Match whose text is a buffer that goes back to the pool")
-				case cal != nil && (cal.Name() == "newStringMatchText" || cal.Name() == "writeRunes" || cal.Name() == "findAllRunesIndex"):
+				case cal != nil && (core.BaseName(cal) == "newStringMatchText" || core.BaseName(cal) == "writeRunes" || core.BaseName(cal) == "findAllRunesIndex"):
 					// text info for quick scans / local reads / the find-all driver (which scans quick: checked on its own call)
 				case cal == nil:
 					if _, isBuiltin := call.Call.Value.(*ssa.Builtin); !isBuiltin {
